@@ -340,9 +340,11 @@ func (cmd *mainCmd) Run(args []string) error {
 				errors = append(errors, fmt.Errorf("reformat %q: %w", filename, err))
 				continue
 			}
-		} else if _, err := parser.ParseFile(token.NewFileSet(), filename, bs, parser.AllErrors); err != nil {
-			// imports.Process rejects output that does not parse;
-			// do the same when it is skipped.
+		}
+		// imports.Process rejects input that does not parse, but what it
+		// returns went through the printer once more and need not parse
+		// either: whatever is emitted is checked.
+		if _, err := parser.ParseFile(token.NewFileSet(), filename, bs, parser.AllErrors); err != nil {
 			errors = append(errors, fmt.Errorf("reformat %q: %w", filename, err))
 			continue
 		}
